@@ -127,7 +127,9 @@ def facts_vhd(rng):
     size = n * bs - rng.choice([0, 512])
     orig = size + rng.choice([0, bs, -512 if size > 512 else 0])
     img = {"kind": kind, "n": n, "cb": 1, "bat": {i: (i if kind == "dynamic" else -1) for i in range(n)}, "size": n, "foot511": rng.random() < 0.3}
-    vf, info = enc_vhd.build(img, block_size=bs, P=n, size_bytes=size, original_size=orig)
+    vf, info = enc_vhd.build(img, block_size=bs, P=n, size_bytes=size, original_size=orig,
+                             footer_kw={"creator_app": rng.choice([b"vpc ", b"win ", b"qemu", b"vbox", b"d2v "]), "geometry": rng.choice([0x03FF103F, 0xFFFF10FF, 0]),
+                                        "timestamp": rng.getrandbits(32), "uid": bytes(rng.randrange(256) for _ in range(16))})
     v = VHD(vf)
     f = [["size", size, v.size], ["current_size", size, v.disk.footer.current_size], ["original_size", orig, v.disk.footer.original_size],
          ["kind", kind, "dynamic" if hasattr(v.disk, "bat") else "fixed"]]
@@ -144,7 +146,8 @@ def facts_hds(rng):
     size = n * cs - rng.choice([0, 512])
     in_use = rng.random() < 0.5
     vf, info = enc_hds.build({"ver": ver, "n": n, "cb": 1, "bat": {i: i + 1 for i in range(n)}, "size": n}, cluster_size=cs, P=n + 1, size_bytes=size,
-                             hdr_kw={"in_use": 0x746F6E59 if in_use else 0})
+                             hdr_kw={"in_use": 0x746F6E59 if in_use else 0, "v1_unused": rng.choice([0, 1, 0xFFFFFFFF, 0x200]), "heads": rng.choice([16, 255]),
+                                     "cyl": rng.choice([1024, 0xFFFF]), "flags": rng.choice([0, 1, 0x80000000])})
     first = struct.unpack("<I", vf.peek_bytes(48, 4))[0]
     v = HDS(vf)
     return [["size", size, v.size], ["cluster_size", cs, v.cluster_size], ["in_use", in_use, v.in_use], ["first_block", first, v.data_offset],
@@ -268,12 +271,18 @@ def facts_qcow2(rng):
     nc = rng.choice([1, 3])
     size = nc * (1 << cb) - rng.choice([0, 512])
     img["l2n"] = (1 << cb) // 8
-    vf, dvf, info = enc_qcow2.build(img, cluster_bits=cb, K=1, backing_name=name, size_bytes=size, header_length=rng.choice([104, 112]),
-                                    extra_ext=[(enc_qcow2.EXT_FEATURE_TABLE, bytes(range(48)))])
+    hlen = rng.choice([104, 104, 112])
+    bfe = rng.random() < 0.6
+    ctype = rng.choice([0, 0, 1]) if hlen > 104 else None
+    vf, dvf, info = enc_qcow2.build(img, cluster_bits=cb, K=1, backing_name=name, size_bytes=size, header_length=hlen, compression_type=ctype,
+                                    incompat_extra=(8 if ctype else 0), extra_ext=[(enc_qcow2.EXT_FEATURE_TABLE, bytes(range(48)))],
+                                    datafile_ext=True, backing_fmt_ext=bfe, end_marker=rng.random() < 0.8)
     q = QCow2(vf, data_file=dvf, backing_file=io.BytesIO(b"") if back else None)
     f = [["size", size, q.size], ["cluster_size", 1 << cb, q.cluster_size], ["backing_name", name if back else None, q.auto_backing_file],
-         ["backing_format", ("RAW" if back else None), (q.backing_format.upper() if q.backing_format else None)],
+         ["backing_format", ("RAW" if back and bfe else None), (q.backing_format.upper() if q.backing_format else None)],
          ["feature_table", bytes(range(48)).hex(), (q.feature_table or b"").hex()], ["data_file_name", "data file.raw" if img["datafile"] else None, q.image_data_file]]
+    # the compression method: stored in the byte behind a 104-byte header only if the header is longer than that
+    f.append(["compression_type", ctype or 0, int(q.compression_type)])
     return f
 
 
